@@ -34,6 +34,10 @@ type PlanC17 struct {
 	// destination, through the channels of all sessions (a broadcast, as a relay or chat server
 	// does); Rot rotates the order in which the sessions are served
 	Bcast int `json:"bcast,omitempty"`
+	// Intruder: once client 0 has its session, a scripted peer opens a connection of its own and
+	// presents that session's id in its new-session envelope, then goes through the handshake as
+	// far as the server lets it
+	Intruder bool `json:"intruder,omitempty"`
 }
 
 func genC17(t *simrt.Tape, tier string) interface{} {
@@ -61,6 +65,7 @@ func genC17(t *simrt.Tape, tier string) interface{} {
 	}
 	p.Latency = []int{0, 0, 2, 30}[t.Draw(4)]
 	p.Bcast = []int{0, 0, 1, 3}[t.Draw(4)]
+	p.Intruder = t.Draw(4) == 0
 	if t.Draw(4) == 0 {
 		// a connection pool: several clients present one and the same candidate node, their
 		// registrations overlap on a backend that takes its time
@@ -296,6 +301,47 @@ func runC17(w *World, pi interface{}) {
 			w.Eventually(time.Minute, func() bool { return len(c.got) >= len(c.sent) })
 		}()
 	}
+	intruderSid := ""
+	intrDone := NewFlag()
+	go func() {
+		defer intrDone.Set()
+		if !p.Intruder || len(cs) == 0 {
+			return
+		}
+		w.Eventually(5*time.Minute, func() bool { return cs[0].ok || cs[0].done.IsSet() })
+		if !cs[0].ok {
+			return
+		}
+		li := p.Clients[0].L
+		if li < 0 || li >= len(p.Conf.Listeners) {
+			li = 0
+		}
+		ih := &History{}
+		var peer *RawPeer
+		var err error
+		switch p.Conf.Listeners[li] {
+		case "tcp", "tcptls":
+			peer, err = DialRawTCP(w, ih, 0, tcpAddr(f.BasePort+li).String())
+		case "ws":
+			peer, err = DialRawWS(w, ih, 0, fmt.Sprintf("ws://127.0.0.1:%d", f.BasePort+li), nil)
+		case "wss":
+			_, cli := TLSConfigs()
+			peer, err = DialRawWS(w, ih, 0, fmt.Sprintf("wss://127.0.0.1:%d", f.BasePort+li), cli)
+		default:
+			peer, err = DialRawInProc(w, ih, 0, f.InProc[li], 2)
+		}
+		if err != nil {
+			return
+		}
+		defer peer.Close()
+		peer.ForceID = cs[0].sid
+		w.Count("intruder-presented-a-live-session-id")
+		ScriptRun(w, peer, []Step{{Op: "session", State: "new", IDMode: 4}, {Op: "auto", Choice: 1}, {Op: "auto", Choice: 1}, {Op: "auto", Choice: 1}, {Op: "auto", Choice: 1}})
+		if lf := peer.LastSessionFrame(); fstr(lf, "state") == "established" {
+			intruderSid = fstr(lf, "id")
+		}
+		time.Sleep(time.Second)
+	}()
 	bcDone := NewFlag()
 	go func() {
 		defer bcDone.Set()
@@ -332,8 +378,12 @@ func runC17(w *World, pi interface{}) {
 		c.done.WaitFor(10 * time.Minute)
 	}
 	bcDone.WaitFor(10 * time.Minute)
+	intrDone.WaitFor(10 * time.Minute)
 	time.Sleep(2 * time.Second)
 	sig := func(what string) string { return what }
+	if intruderSid != "" && len(cs) > 0 && intruderSid == cs[0].sid {
+		w.Violate("C17.session-id-not-distinct", sig("presented id"), "a second connection that presented the id of client 0's live session (%s) in its new-session envelope was established under that very id", intruderSid)
+	}
 	// distinct ids, matching the server's view
 	seen := map[string]int{}
 	for i, c := range cs {
@@ -440,6 +490,7 @@ func init() {
 		MaxSim: 2 * time.Hour,
 		Rule: "plans = (one server with 1-3 listeners of mixed kinds, 2-6 concurrent real clients over mixed transports with start offsets and per-write latency, registration assigning derived or colliding-looking addresses, 1-6 tagged messages per client, clients that reset their connection after their k-th message, request/response exchanges with command ids shared by all clients, pings of in-process clients against AutoReplyPings, " +
 			"handler delays; every handler records ContextSessionID/RemoteNode/LocalNode and replies through the Sender it was handed); oracle: context values equal those of the session the envelope was sent on, replies reach the originator and nobody else, " +
+			"a server application that broadcasts one envelope object through all sessions; pooled clients presenting one and the same candidate node to a slow registration callback; the announced node is the one the callback returned for that very session; " +
 			"announced ids pairwise distinct and known to the server; non-trivial = server started; distinct = distinct (plan JSON, event-log hash)",
 	})
 }
